@@ -30,7 +30,8 @@ VARIABLES vAssets,   \* Seq([h, id, name, type, def, extras])   live assets, lis
           vDead,     \* handles of asset objects that were removed or whose add was rejected
           vDeadAs,   \* same for association objects
           vDeadAtk,  \* same for attacker objects
-          vGone,     \* what a dead object looked like: [h -> [id, name]] / [h -> [cls, l, r]]
+          vGone,     \* what a dead object looks like (the caller still holds it and may hand it back):
+                     \* asset [id, name, type, def, extras] / association [cls, l, r, extras] / attacker [id, name, ep]
           vNextId,   \* policy state: the default id the documented policy would choose next
           vNextH,    \* next fresh handle (generation mode)
           vAct       \* label of the last action
@@ -59,7 +60,13 @@ Init == /\ vAssets = <<>> /\ vAssocs = <<>> /\ vAtk = <<>>
 \* Python compares these objects BY VALUE (python_jsonschema_objects, dataclass): a dead object that is
 \* indistinguishable from a live one ("value twin") is outside the specified domain of the handle-taking calls
 TwinAsset(hh) == hh \in DOMAIN vGone /\ \E k \in DOMAIN vAssets : vAssets[k].id = vGone[hh].id /\ vAssets[k].name = vGone[hh].name
-TwinAssoc(ah) == ah \in DOMAIN vGone /\ \E k \in DOMAIN vAssocs : vAssocs[k].cls = vGone[ah].cls /\ vAssocs[k].l = vGone[ah].l /\ vAssocs[k].r = vGone[ah].r
+ValKey(hh) == IF \E k \in DOMAIN vAssets : vAssets[k].h = hh
+              THEN LET a == vAssets[CHOOSE k \in DOMAIN vAssets : vAssets[k].h = hh] IN <<a.id, a.name>>
+              ELSE IF hh \in DOMAIN vGone THEN <<vGone[hh].id, vGone[hh].name>> ELSE <<hh>>
+ValKeys(q) == [i \in DOMAIN q |-> ValKey(q[i])]
+TwinAssoc(ah) == ah \in DOMAIN vGone /\ \E k \in DOMAIN vAssocs : /\ vAssocs[k].cls = vGone[ah].cls
+                                                                   /\ ValKeys(vAssocs[k].l) = ValKeys(vGone[ah].l)
+                                                                   /\ ValKeys(vAssocs[k].r) = ValKeys(vGone[ah].r)
 TwinAtk(th)   == th \in DOMAIN vGone /\ \E k \in DOMAIN vAtk : vAtk[k].id = vGone[th].id /\ vAtk[k].name = vGone[th].name
 
 (* ------------------------------- assets -------------------------------- *)
@@ -68,38 +75,52 @@ DefaultDefs(T) == [d \in Defenses(Lng, T) |-> DefenseDefault(Lng, T, d)]
 PolicyName(T, reqName, id) == IF reqName = NONE THEN T \o ":" \o ToString(id) ELSE reqName \o ":" \o ToString(id)
 NeedsAutoName(reqName) == reqName = NONE \/ reqName \in LiveNm
 
+\* The object handed to add_asset is either NEW (handle not known) or one the caller holds from before: an asset that
+\* was removed, or whose add was rejected. It comes back with its type, its last name, its defense values and extras;
+\* the id is assigned anew, associations and entry points are not restored.
+ReAddOn == FALSE                         \* configurations that explore re-adds override this
+IsNewObj(nh) == nh \notin Known
+IsBackAsset(nh) == nh \in vDead /\ nh \in DOMAIN vGone
+AssetObjOK(nh, T, reqName) == \/ IsNewObj(nh)
+                              \/ IsBackAsset(nh) /\ vGone[nh].type = T /\ vGone[nh].name = reqName
+ObjDefs(nh, T) == IF IsNewObj(nh) THEN DefaultDefs(T) ELSE vGone[nh].def
+ObjExtras(nh) == IF IsNewObj(nh) THEN 0 ELSE vGone[nh].extras
+DeadRec(nh, T, reqName, reqId) == [id |-> reqId, name |-> reqName, type |-> T, def |-> ObjDefs(nh, T), extras |-> ObjExtras(nh)]
+Drop(f, x) == [y \in DOMAIN f \ {x} |-> f[y]]
+
 AddAssetOK(T, reqName, reqId, allowDup, newId, newName, nh) ==
-  /\ Len(vAssets) < MaxAssets /\ nh <= MaxH /\ nh \notin Known /\ T \in Types
+  /\ Len(vAssets) < MaxAssets /\ nh <= MaxH /\ AssetObjOK(nh, T, reqName) /\ T \in Types
   /\ reqId # NoId => (reqId \notin LiveIds /\ newId = reqId)        \* an explicit id is honoured (0, negative too)
   /\ newId \notin LiveIds                                            \* a default id is any id not live
   /\ \/ /\ reqName # NONE /\ reqName \notin LiveNm /\ newName = reqName
      \/ /\ reqName # NONE /\ reqName \in LiveNm /\ allowDup /\ newName \notin LiveNm
      \/ /\ reqName = NONE /\ newName \notin LiveNm
   /\ vAssets' = Append(vAssets, [h |-> nh, id |-> newId, name |-> newName, type |-> T,
-                                 def |-> DefaultDefs(T), extras |-> 0])
+                                 def |-> ObjDefs(nh, T), extras |-> ObjExtras(nh)])
   /\ vNextId' = IF newId + 1 > vNextId THEN newId + 1 ELSE vNextId
   /\ vNextH' = Bump(nh)
   /\ vAct' = [op |-> "AddAsset", T |-> T, reqName |-> reqName, reqId |-> reqId, allowDup |-> allowDup,
               res |-> "ok", h |-> nh, id |-> newId, name |-> newName,
               polId |-> (reqId = NoId), polName |-> NeedsAutoName(reqName)]
-  /\ UNCHANGED <<vAssocs, vAtk, vDead, vDeadAs, vDeadAtk, vGone>>
+  /\ vDead' = vDead \ {nh} /\ vGone' = Drop(vGone, nh)
+  /\ UNCHANGED <<vAssocs, vAtk, vDeadAs, vDeadAtk>>
 AddAssetRej(T, reqName, reqId, allowDup, nh) ==
-  /\ nh <= MaxH /\ nh \notin Known /\ T \in Types
+  /\ nh <= MaxH /\ AssetObjOK(nh, T, reqName) /\ T \in Types
   /\ \/ reqId # NoId /\ reqId \in LiveIds
      \/ reqName # NONE /\ reqName \in LiveNm /\ ~allowDup
-  /\ vDead' = vDead \cup {nh} /\ vNextH' = Bump(nh) /\ vGone' = Put(vGone, nh, [id |-> reqId, name |-> reqName])
+  /\ vDead' = vDead \cup {nh} /\ vNextH' = Bump(nh) /\ vGone' = Put(vGone, nh, DeadRec(nh, T, reqName, reqId))
   /\ vAct' = [op |-> "AddAsset", T |-> T, reqName |-> reqName, reqId |-> reqId, allowDup |-> allowDup,
               res |-> "exc", h |-> nh, id |-> NoId, name |-> NONE, polId |-> FALSE, polName |-> FALSE]
   /\ UNCHANGED <<vAssets, vAssocs, vAtk, vDeadAs, vDeadAtk, vNextId>>
 \* the policy name is already live: the property allows a rejection (state unchanged) or any other
 \* fresh name; nothing more specific can be predicted, generated behaviours end here
 AddAssetCollide(T, reqName, reqId, allowDup, newId, nh) ==
-  /\ Len(vAssets) < MaxAssets /\ nh <= MaxH /\ nh \notin Known /\ T \in Types
+  /\ Len(vAssets) < MaxAssets /\ nh <= MaxH /\ AssetObjOK(nh, T, reqName) /\ T \in Types
   /\ reqId # NoId => (reqId \notin LiveIds /\ newId = reqId)
   /\ newId \notin LiveIds
   /\ NeedsAutoName(reqName) /\ (reqName # NONE => allowDup)
   /\ PolicyName(T, reqName, newId) \in LiveNm
-  /\ vDead' = vDead \cup {nh} /\ vNextH' = Bump(nh) /\ vGone' = Put(vGone, nh, [id |-> reqId, name |-> reqName])
+  /\ vDead' = vDead \cup {nh} /\ vNextH' = Bump(nh) /\ vGone' = Put(vGone, nh, DeadRec(nh, T, reqName, reqId))
   /\ vAct' = [op |-> "AddAsset", T |-> T, reqName |-> reqName, reqId |-> reqId, allowDup |-> allowDup,
               res |-> "collide", h |-> nh, id |-> newId, name |-> NONE, polId |-> (reqId = NoId), polName |-> TRUE]
   /\ UNCHANGED <<vAssets, vAssocs, vAtk, vDeadAs, vDeadAtk, vNextId>>
@@ -116,9 +137,11 @@ RemoveAssetOK(hh) ==
   /\ vDead' = vDead \cup {hh}
   /\ vDeadAs' = vDeadAs \cup (LiveAs \ {vAssocs'[k].h : k \in DOMAIN vAssocs'})
   /\ vGone' = [x \in DOMAIN vGone \cup {hh} \cup (vDeadAs' \ vDeadAs) |->
-                 IF x = hh THEN [id |-> AssetOf(hh).id, name |-> AssetOf(hh).name]
+                 IF x = hh THEN [id |-> AssetOf(hh).id, name |-> AssetOf(hh).name, type |-> AssetOf(hh).type,
+                                 def |-> AssetOf(hh).def, extras |-> AssetOf(hh).extras]
                  ELSE IF x \in DOMAIN vGone THEN vGone[x]
-                 ELSE [cls |-> AssocOf(x).cls, l |-> <<>>, r |-> <<>>]]      \* an emptied association has no twin
+                 \* an association that lost a whole side is dropped AS IT IS: the object keeps its member lists
+                 ELSE [cls |-> AssocOf(x).cls, l |-> AssocOf(x).l, r |-> AssocOf(x).r, extras |-> AssocOf(x).extras]]
   /\ vAct' = [op |-> "RemoveAsset", h |-> hh, res |-> "ok"]
   /\ UNCHANGED <<vDeadAtk, vNextId, vNextH>>
 RemoveAssetRej(hh) ==
@@ -151,15 +174,21 @@ AssocReason(c, l, r) ==                    \* C06: why an association is rejecte
   ELSE IF ~NoRepeat(l) \/ ~NoRepeat(r) THEN "repeat"
   ELSE IF \E a \in Range(l), b \in Range(r) : LinkExists(c, a, b) THEN "duplicate"
   ELSE "ok"
+\* a new association object, or one the caller holds from before (removed, dropped when it lost a side, or rejected):
+\* it comes back with the class, the member lists and the extras it has
+IsBackAssoc(nh) == nh \in vDeadAs /\ nh \in DOMAIN vGone
+AssocObjOK(nh, c, l, r) == \/ IsNewObj(nh)
+                           \/ IsBackAssoc(nh) /\ vGone[nh].cls = c /\ vGone[nh].l = l /\ vGone[nh].r = r
+AssocExtras(nh) == IF IsNewObj(nh) THEN 0 ELSE vGone[nh].extras
 AddAssociation(c, l, r, nh) ==
-  /\ nh <= MaxH /\ nh \notin Known /\ c \in DOMAIN Lng.assocs
+  /\ nh <= MaxH /\ AssocObjOK(nh, c, l, r) /\ c \in DOMAIN Lng.assocs
   /\ Range(l) \cup Range(r) \subseteq LiveH
   /\ LET why == AssocReason(c, l, r) IN
      /\ why # "empty"                      \* an empty field is outside the property's domain
      /\ why = "ok" => Len(vAssocs) < MaxAssocs
-     /\ vAssocs' = IF why = "ok" THEN Append(vAssocs, [h |-> nh, cls |-> c, l |-> l, r |-> r, extras |-> 0]) ELSE vAssocs
-     /\ vDeadAs' = IF why = "ok" THEN vDeadAs ELSE vDeadAs \cup {nh}
-     /\ vGone' = IF why = "ok" THEN vGone ELSE Put(vGone, nh, [cls |-> c, l |-> l, r |-> r])
+     /\ vAssocs' = IF why = "ok" THEN Append(vAssocs, [h |-> nh, cls |-> c, l |-> l, r |-> r, extras |-> AssocExtras(nh)]) ELSE vAssocs
+     /\ vDeadAs' = IF why = "ok" THEN vDeadAs \ {nh} ELSE vDeadAs \cup {nh}
+     /\ vGone' = IF why = "ok" THEN Drop(vGone, nh) ELSE Put(vGone, nh, [cls |-> c, l |-> l, r |-> r, extras |-> AssocExtras(nh)])
      /\ vAct' = [op |-> "AddAssociation", cls |-> c, l |-> l, r |-> r, res |-> (IF why = "ok" THEN "ok" ELSE "exc"),
                  why |-> why, h |-> nh]
   /\ vNextH' = Bump(nh)
@@ -167,7 +196,7 @@ AddAssociation(c, l, r, nh) ==
 RemoveAssociationOK(ah) ==
   /\ ah \in LiveAs
   /\ vAssocs' = SelectSeq(vAssocs, LAMBDA a : a.h # ah) /\ vDeadAs' = vDeadAs \cup {ah}
-  /\ vGone' = Put(vGone, ah, [cls |-> AssocOf(ah).cls, l |-> AssocOf(ah).l, r |-> AssocOf(ah).r])
+  /\ vGone' = Put(vGone, ah, [cls |-> AssocOf(ah).cls, l |-> AssocOf(ah).l, r |-> AssocOf(ah).r, extras |-> AssocOf(ah).extras])
   /\ vAct' = [op |-> "RemoveAssociation", h |-> ah, res |-> "ok"]
   /\ UNCHANGED <<vAssets, vAtk, vDead, vDeadAtk, vNextId, vNextH>>
 RemoveAssociationRej(ah) ==
@@ -183,7 +212,8 @@ RemoveFromAssoc(hh, ah) ==
                          ELSE vAssocs
      /\ vDeadAs' = vDeadAs \cup (LiveAs \ {vAssocs'[k].h : k \in DOMAIN vAssocs'})
      /\ vGone' = [x \in DOMAIN vGone \cup (vDeadAs' \ vDeadAs) |->
-                    IF x \in DOMAIN vGone THEN vGone[x] ELSE [cls |-> AssocOf(x).cls, l |-> <<>>, r |-> <<>>]]
+                    IF x \in DOMAIN vGone THEN vGone[x]
+                    ELSE [cls |-> AssocOf(x).cls, l |-> AssocOf(x).l, r |-> AssocOf(x).r, extras |-> AssocOf(x).extras]]   \* dropped as it is
      /\ vAct' = [op |-> "RemoveFromAssoc", h |-> hh, ah |-> ah, res |-> IF ok THEN "ok" ELSE "exc"]
   /\ UNCHANGED <<vAssets, vAtk, vDead, vDeadAtk, vNextId, vNextH>>
 SetAssocExtras(ah, x) ==
@@ -195,8 +225,12 @@ SetAssocExtras(ah, x) ==
 (* ------------------------------ attackers ------------------------------ *)
 \* attacker ids: an explicit id is honoured; a default id is any id (the property only speaks of
 \* asset ids); an explicit id equal to a live attacker's is outside the specified domain
+\* a new attacker object or one that was removed earlier: it comes back with its name and the entry points it has
+IsBackAtk(nh) == nh \in vDeadAtk /\ nh \in DOMAIN vGone
 AddAttacker(reqId, reqName, newId, newName, ep0, nh) ==
-  /\ Len(vAtk) < MaxAtk /\ nh <= MaxH /\ nh \notin Known
+  /\ Len(vAtk) < MaxAtk /\ nh <= MaxH
+  /\ \/ IsNewObj(nh)
+     \/ IsBackAtk(nh) /\ reqName = vGone[nh].name /\ ep0 = vGone[nh].ep
   /\ reqId # NoId => (newId = reqId /\ reqId \notin AtkIds)
   /\ newId \notin AtkIds
   /\ reqName # NONE => newName = reqName
@@ -206,11 +240,12 @@ AddAttacker(reqId, reqName, newId, newName, ep0, nh) ==
   /\ vNextH' = Bump(nh)
   /\ vAct' = [op |-> "AddAttacker", reqId |-> reqId, reqName |-> reqName, res |-> "ok", h |-> nh, id |-> newId,
               name |-> newName, polId |-> (reqId = NoId), polName |-> (reqName = NONE)]
-  /\ UNCHANGED <<vAssets, vAssocs, vDead, vDeadAs, vDeadAtk, vGone>>
+  /\ vDeadAtk' = vDeadAtk \ {nh} /\ vGone' = Drop(vGone, nh)
+  /\ UNCHANGED <<vAssets, vAssocs, vDead, vDeadAs>>
 RemoveAttackerOK(th) ==
   /\ th \in LiveAtk
   /\ vAtk' = SelectSeq(vAtk, LAMBDA t : t.h # th) /\ vDeadAtk' = vDeadAtk \cup {th}
-  /\ vGone' = Put(vGone, th, [id |-> AtkOf(th).id, name |-> AtkOf(th).name])
+  /\ vGone' = Put(vGone, th, [id |-> AtkOf(th).id, name |-> AtkOf(th).name, ep |-> AtkOf(th).ep])
   /\ vAct' = [op |-> "RemoveAttacker", h |-> th, res |-> "ok"]
   /\ UNCHANGED <<vAssets, vAssocs, vDead, vDeadAs, vNextId, vNextH>>
 RemoveAttackerRej(th) ==
@@ -255,11 +290,22 @@ NextP(UsePolicy) ==
                     AddAssetOK(T, n, i, d, ni, nn, vNextH)
               \/ UsePolicy /\ AddAssetCollide(T, n, i, d, ni, vNextH)
         \/ AddAssetRej(T, n, i, d, vNextH)
+  \* an asset object the caller got back is handed in again (same three outcomes)
+  \/ ReAddOn /\ \E bh \in {x \in vDead : x \in DOMAIN vGone}, i \in IdPool, d \in BOOLEAN :
+        \/ \E ni \in (IF i # NoId THEN {i} ELSE IF UsePolicy THEN {vNextId} ELSE FreshPool) :
+              \/ \E nn \in (IF ~NeedsAutoName(vGone[bh].name) THEN {vGone[bh].name}
+                             ELSE IF UsePolicy THEN {PolicyName(vGone[bh].type, vGone[bh].name, ni)} ELSE AutoNames) :
+                    AddAssetOK(vGone[bh].type, vGone[bh].name, i, d, ni, nn, bh)
+              \/ UsePolicy /\ AddAssetCollide(vGone[bh].type, vGone[bh].name, i, d, ni, bh)
+        \/ AddAssetRej(vGone[bh].type, vGone[bh].name, i, d, bh)
   \/ \E hh \in LiveH : RemoveAssetOK(hh)
   \/ \E hh \in vDead : RemoveAssetRej(hh)
   \/ \E hh \in LiveH : \E d \in Defenses(Lng, TypeOfH(hh)), v \in DefVals : SetDefense(hh, d, v)
   \/ \E hh \in LiveH, x \in ExtrasPool : SetAssetExtras(hh, x)
   \/ \E c \in DOMAIN Lng.assocs, l \in Members, r \in Members : AddAssociation(c, l, r, vNextH)
+  \/ ReAddOn /\ \E ah \in {x \in vDeadAs : x \in DOMAIN vGone} :
+        /\ Range(vGone[ah].l) \cup Range(vGone[ah].r) \subseteq LiveH
+        /\ AddAssociation(vGone[ah].cls, vGone[ah].l, vGone[ah].r, ah)
   \/ \E ah \in LiveAs : RemoveAssociationOK(ah)
   \/ \E ah \in vDeadAs : RemoveAssociationRej(ah)
   \/ \E hh \in LiveH \cup vDead, ah \in LiveAs \cup vDeadAs : RemoveFromAssoc(hh, ah)
@@ -267,6 +313,9 @@ NextP(UsePolicy) ==
   \/ \E i \in IdPool, n \in {NONE, "atk"} :
         \E ni \in (IF i # NoId THEN {i} ELSE IF UsePolicy THEN {vNextId} ELSE FreshPool) :
            AddAttacker(i, n, ni, IF n = NONE THEN (IF UsePolicy THEN "Attacker:" \o ToString(ni) ELSE "autoatk") ELSE n, <<>>, vNextH)
+  \/ ReAddOn /\ \E th \in {x \in vDeadAtk : x \in DOMAIN vGone}, i \in IdPool :
+        \E ni \in (IF i # NoId THEN {i} ELSE IF UsePolicy THEN {vNextId} ELSE FreshPool) :
+           AddAttacker(i, vGone[th].name, ni, vGone[th].name, vGone[th].ep, th)
   \/ \E th \in LiveAtk : RemoveAttackerOK(th)
   \/ \E th \in vDeadAtk : RemoveAttackerRej(th)
   \/ \E th \in LiveAtk, hh \in LiveH, s \in StepPool : AddEntryPoint(th, hh, s)
@@ -353,5 +402,9 @@ RemovedLeavesNoTrace ==
         /\ \A k \in DOMAIN vAssocs' : a.h \notin Range(vAssocs'[k].l) \cup Range(vAssocs'[k].r)
         /\ \A k \in DOMAIN vAtk' : \A i \in DOMAIN vAtk'[k].ep : vAtk'[k].ep[i].a # a.h]_mvars
 RejUnchangedP == [][vAct'.res = "exc" => UNCHANGED pvars]_mvars
-StateView == <<vAssets, vAssocs, vAtk, vDead, vDeadAs, vDeadAtk, vGone, vNextId, vNextH>>
+\* what a held object carries besides its identity matters only if it can be handed in again
+GoneView == IF ReAddOn THEN vGone
+            ELSE [x \in DOMAIN vGone |-> IF "cls" \in DOMAIN vGone[x] THEN [cls |-> vGone[x].cls, l |-> vGone[x].l, r |-> vGone[x].r]
+                                          ELSE [id |-> vGone[x].id, name |-> vGone[x].name]]
+StateView == <<vAssets, vAssocs, vAtk, vDead, vDeadAs, vDeadAtk, GoneView, vNextId, vNextH>>
 =============================================================================
